@@ -498,6 +498,18 @@ func coqV(v *V) string {
 	case "nil":
 		return "VNil"
 	case "list":
+		if len(v.L) >= 200 {
+			same := true
+			for _, e := range v.L[1:] {
+				if !eqV(e, v.L[0]) {
+					same = false
+					break
+				}
+			}
+			if same {
+				return fmt.Sprintf("(VList (lrep %d [%s]))", len(v.L), coqV(v.L[0]))
+			}
+		}
 		p := make([]string, len(v.L))
 		for i, e := range v.L {
 			p[i] = coqV(e)
